@@ -6,16 +6,26 @@ CONFIG = {
     "design_ref": "4.3",
     "technique": "Lean 4 proof: executable model of write_term/write_triple/quoted_string (escape table regenerated from "
                  "the match arms of quoted_string) and an independent reader transcribed from the W3C N-Quads grammar "
-                 "(+ N-Triples-star); theorems reader . writer = id; byte-exact differential vs NtSerializer/NqSerializer "
-                 "and reader differential vs Rio's nt/nq parsers",
+                 "(+ N-Triples-star); theorems reader . writer = id, and byte loop on UTF-8 = encoding of the scalar-value "
+                 "writer; byte-exact differential vs NtSerializer/NqSerializer through every public entry point "
+                 "(serialize_triples/quads, serialize_graph/dataset on Vec and HashSet; stringifier, short-write, "
+                 "BufWriter and failing sinks; pure-ASCII option), the grammar reader run on the bytes the real "
+                 "serializer wrote, and reader differential vs Rio's nt/nq parsers (parse_str and parse_bufread)",
     "level_text": "Proof (unbounded: all Unicode strings, all well-formed terms, all finite datasets) about the model: "
                   "unescape(quotedString s) = s for every string; the escaped text has no raw quote, backslash, CR or LF; a "
-                  "written quad is exactly one line; the grammar reader returns exactly the written term / quad / "
+                  "written quad is exactly one line, a document has one LF per statement and each line reads as its quad on "
+                  "its own; the loop of quoted_string run on the UTF-8 bytes of a text writes the UTF-8 encoding of "
+                  "quotedString of the text (Lean's own utf8EncodeChar); the grammar reader returns exactly the written term / quad / "
                   "document (same list, in order) for every dataset whose IRIs avoid the characters IRIREF forbids, whose "
                   "labels are in BLANK_NODE_LABEL and whose tags are in LANGTAG; serialisation is injective. Differential "
                   "(bounded by the generator): the model's bytes equal NtSerializer/NqSerializer's on every generated "
                   "dataset, and Rio's nt/nq/gnq parsers return the input quads on the serialiser's output (the property "
-                  "itself, on the real code) and agree with the grammar reader on outputs and single-edit mutants.",
+                  "itself, on the real code; also through parse_bufread with a 1-7 byte buffer, and after piping the "
+                  "parser's Trusted<Rio> terms straight back into the serializer) and agree with the grammar reader on "
+                  "outputs and single-edit mutants; the grammar reader reads the real serializer's bytes as exactly the "
+                  "input quads (tag case included). Sizes: lexical forms up to 64 KiB with every escape class at every "
+                  "offset of a 16-byte block and at 64 B / 4 KiB / 8 KiB / 64 KiB boundaries; documents of 2000 "
+                  "(thorough: 10000) statements; quoted triples to depth 4.",
     "level_note": "The round trip through the REAL parsers is differential, not proof (Rio is third-party; only its "
                   "observable agreement with the grammar reader is checked). Language tags are compared "
                   "case-insensitively: Rio lower-cases tags ('EN-gb' comes back as 'en-gb'), which LanguageTag::eq and "
@@ -25,14 +35,21 @@ CONFIG = {
                   "quantifies over BCP 47 tags, the proof's guard is tagOk (alphabetic first subtag) and the differential's "
                   "is oxilangtag well-formedness. Systematic Rio-vs-grammar difference excluded from the reader "
                   "differential: a CR not followed by LF (the grammar's EOL is [CR LF]+, Rio only ends lines at LF). "
-                  "Trusted: grammar transcription in Model/NT.lean; UTF-8 byte scan = scalar-value scan for ASCII cut bytes.",
-    "tables": ["ntescapes", "regexes"],
+                  "Pure-ASCII mode (NtConfig::set_ascii) is `todo!()` in the source: the model predicts the panic from a "
+                  "generated flag (Gen/NtAscii.lean); once it is implemented the flag flips and `ascii` requests keep only "
+                  "the oracles (round trip through Rio, line discipline, grammar reader on the bytes; `ascii_only=` is reported, not required). "
+                  "Set containers (HashSet) are compared as sorted sets of lines. A serializer panic / error on an "
+                  "in-domain dataset is an oracle failure (rt=panic against o.rt=1), not only a disagreement. "
+                  "Trusted: grammar transcription in Model/NT.lean.",
+    "tables": ["ntescapes", "ntascii", "regexes"],
     "lean_targets": ["SophiaProofs.Props.C03", "SophiaProofs.Audit.C03"],
-    "theorems": ["unescape_quoted", "quoted_clean", "quoted_no_panic", "quoted_rs_eq", "quoted_loop_inv", "one_line", "read_write_term",
+    "theorems": ["escape_table_ok", "unescape_quoted", "quoted_clean", "quoted_no_panic", "quoted_rs_eq", "quoted_loop_inv", "one_line", "read_write_term",
                  "read_write_quad", "read_write_doc", "read_write_doc_nt", "write_injective", "writeTerm_injective",
                  "iri_regex_sub_iriref", "bnode_id_sub_label", "bcp47_sub_langtag", "bcp47_sub_lang_tag",
                  "lang_tag_guard", "lang_tag_guard_excl", "lang_tag_wider", "valid_termOk", "domain_quadOk",
-                 "read_write_doc_valid"],
+                 "read_write_doc_valid",
+                 "quoted_bytes_eq", "utf8_is_toUTF8", "quoted_bytes_no_panic", "unescape_quoted_bytes", "doc_lines",
+                 "each_line_reads"],
     # whole-regex side-language obligations (validators vs grammar terminals) are evaluated natively by the
     # verified decision procedure; the round-trip theorems themselves use no native_decide
     "native_ok": ["iri_regex_sub_iriref", "bnode_id_sub_label", "bcp47_sub_langtag", "bcp47_sub_lang_tag",
@@ -47,16 +64,17 @@ CONFIG = {
             "non-BMP), tags from a BCP 47 corpus + members sampled from the BCP 47 grammar, IRIs from a corpus + members "
             "sampled from IRI_REGEX, every sixth round adds out-of-domain tags/relative IRIs (observations); documents: "
             "fixed corpus of 90 grammar corner cases, each serialiser output and 3 single-edit mutants of it, through "
-            "nt and nq; a case is non-trivial unless the reply is a rejection or a documented skip; distinct = distinct "
+            "nt and nq; each serialiser output with the quads it came from through the grammar reader (rd); a case is non-trivial unless the reply is a rejection or a documented skip; distinct = distinct "
             "request lines",
     "trusted_base": ["W3C N-Triples/N-Quads 1.1 grammar + N-Triples-star quotedTriple, transcribed in "
                      "lean/SophiaModel/Model/NT.lean (reader) — PN_CHARS_U without ':' as in RDF 1.2 / the erratum",
                      "Rio (rio_turtle 0.8.6), oxiri, oxilangtag internals: observed through the differential only",
                      "RFC 5646 section 2.1 transcription (NT.G.BCP47), cross-checked per case against oxilangtag"],
-    "assumptions": ["quoted_string scans UTF-8 bytes, the model scans scalar values: equal because every cut byte is ASCII "
-                    "and no byte of a multi-byte sequence is < 0x80 (exercised byte-exactly on non-ASCII text)",
-                    "Stringifier::as_utf8 returns exactly the bytes written (Vec<u8> sink)"],
-    "exec_timeout": 600,
+    "assumptions": ["str::as_bytes is the UTF-8 encoding String.utf8EncodeChar specifies (the byte/scalar-value agreement "
+                    "itself is now the theorem quoted_bytes_eq; exercised byte-exactly on non-ASCII text)",
+                    "write_term / write_triple / the per-quad closures are hand transcriptions (only quoted_string's table "
+                    "and control flow are regenerated), tied by the byte-exact differential"],
+    "exec_timeout": 2400,   # thorough: model ~80 s, real code ~35 s on an idle machine; a slow machine must not raise an alarm
 }
 
 
